@@ -2,6 +2,7 @@
 Wrapper process around `python -m nunavut`: owns the ambient state the properties quantify over.
 
   --fake-time T   time.time()/time_ns()/datetime.now()/utcnow()/today() report T (seconds since epoch) -- no change to /repo
+  --exec-code S   run the Python statements S (library use of nunavut) instead of the nnvg command line; give it LAST
   --drop-caps     remove CAP_DAC_OVERRIDE / CAP_DAC_READ_SEARCH / CAP_FOWNER from the bounding+effective sets so that root obeys
                   file mode bits (needed to observe read-only files when the sandbox runs as root)
 """
@@ -80,6 +81,10 @@ def main() -> None:
             _fake_time(float(args.pop(0)))
         elif a == "--drop-caps":
             _drop_caps()
+        elif a == "--exec-code":  # library route: run the given statements instead of the nnvg command line
+            code = args.pop(0)
+            exec(compile(code, "<vf-exec-code>", "exec"), {"__name__": "__main__"})  # pylint: disable=exec-used
+            return
         else:
             sys.stderr.write(f"VF-WRAP: unknown option {a}\n")
             sys.exit(98)
